@@ -204,7 +204,15 @@ func tryStartBinary(id int, bridges []vBridge, allowed, presumed string, o vBinO
 	binMu.Lock()
 	binAll = append(binAll, vb)
 	binMu.Unlock()
-	// ready when /robots.txt answers
+	// the listening socket on that port must be OUR process's (another check running
+	// at the same time may have taken the port between freePort and the bind) ...
+	if !vlib.WaitListener(cmd.Process.Pid, port, 30*time.Second, func() bool { return !vb.alive() }) {
+		out, _ := ioutil.ReadFile(errPath)
+		vb.kill()
+		os.RemoveAll(dir)
+		return nil, fmt.Errorf("broker process does not own a listener on port %d: %s", port, tailStr(string(out), 300))
+	}
+	// ... and ready when /robots.txt answers
 	deadline := time.Now().Add(30 * time.Second)
 	for {
 		select {
